@@ -4,11 +4,11 @@
 From Coq Require Extraction.
 From Coq Require Import ExtrOcamlBasic.
 From CKC Require Import Base.Prelude Base.SortN Model.Card Model.Deck Model.Hands Model.Five Model.HandRank
-  Model.Binary Model.Two Model.Parse Model.Container.
+  Model.Binary Model.Two Model.Parse Model.Container Model.Search.
 
 Extraction Language OCaml.
 Extraction "model.ml"
-  Model.Card.filter Model.Card.create
+  Model.Card.card_filter Model.Card.create
   Model.Card.get_card_rank Model.Card.get_card_suit Model.Card.get_rank_prime Model.Card.get_rank_bit
   Model.Card.get_rank_flag Model.Card.get_suit_bit Model.Card.get_suit_flag Model.Card.get_rank_char
   Model.Card.get_suit_char Model.Card.get_suit_letter Model.Card.is_blank Model.Card.get_chen_points_x2
@@ -31,4 +31,5 @@ Extraction "model.ml"
   Model.Two.chen_formula Model.Two.get_gap Model.Two.high_card Model.Two.is_connector Model.Two.is_pocket_pair
   Model.Two.is_suited Model.Two.is_suited_connector
   Model.Parse.card_from_index Model.Parse.get_rank_and_suit Model.Parse.hand_from_index Model.Parse.bc_from_index
-  Model.Container.step.
+  Model.Container.step
+  Model.Search.first_bad_class.
